@@ -209,7 +209,7 @@ func stressRun(c *vf.Ctx, batch, from, iters int, race bool, seen map[string]boo
 	case res.ExitCode != 0 && !(race && res.ExitCode == 66): // 66: the race detector's exit status when it reported races
 		rep.Dump = trunc(res.Stderr, 6000)
 		fp := "fatal:" + fatalClass(res.Fatal)
-		if strings.Contains(res.Stderr, "daemon.(*OrderedDaemon).stopWorkers") || strings.Contains(res.Stderr, "daemon.(*OrderedDaemon).runBackgroundWorker") {
+		if strings.Contains(res.Stderr, "hive.go/app/daemon.(*OrderedDaemon).") { // naming of the fingerprint only; the death itself is the violation
 			// the same classes as the recovered panics, but raised in a goroutine the harness cannot
 			// guard (spawned by Shutdown()) or as an unrecoverable runtime error
 			switch {
@@ -308,6 +308,8 @@ func run(c *vf.Ctx) {
 	c.Require("variant_concurrent_callers", nCfg/10)
 	c.Require("variant_running_name", nCfg/40)
 	c.Require("variant_run", nCfg/10)
+	c.Require("shutdown_goroutine_identified", nCfg)                                    // self-check: the goroutine performing the shutdown was found (exported frames + WaitGroup.Wait)
+	c.Require("shutdown_seen_waiting_for_live_workers", nCfg)                           // ... while workers were live
 	c.Require("configs_with_far_order_pair", nCfg/10)                                   // live workers whose orders differ by more than math.MaxInt
 	c.Require("stress_iterations", (plainBatches*plainIters+raceBatches*raceIters)*4/5) // a child killed by a defect loses the iterations since its last flush
 	c.Require("stress_calls_overlapping_shutdown", 2000)
